@@ -150,6 +150,37 @@ def main(chk):
                          detail='loop around %s.wait() tests %s, which reads no shared state' % (w.lock, U(loop.test)))
             continue
         chk.holds('wait-in-predicate-loop', inst, node=loop, file=CT, func=w.func, detail='while %s' % U(loop.test))
+        # the predicate must be evaluated while the condition's lock is held: `with L:` encloses the loop, not the reverse
+        holder = None
+        p_ = w.node
+        while p_ is not None and p_ is not loop:
+            p_ = getattr(p_, 'parent', None)
+            if isinstance(p_, ast.With) and any(lm.lock_of(it.context_expr, {}) == w.lock for it in p_.items):
+                holder = p_
+                break
+        inner_hold = holder is not None      # lock taken inside the loop body => test runs without it
+        outer = False
+        q_ = loop
+        while q_ is not None:
+            q_ = getattr(q_, 'parent', None)
+            if isinstance(q_, ast.With) and any(lm.lock_of(it.context_expr, {}) == w.lock for it in q_.items):
+                outer = True
+        outer = outer or (w.lock in eh[w.func])
+        chk.decide(outer and not inner_hold, 'predicate-checked-under-lock', inst, node=loop, file=CT, func=w.func,
+                   detail_bad='`while %s` is evaluated without holding %s (the lock is taken only around the wait): a state change plus '
+                              'notification between the test and the wait is lost and the waiter sleeps forever' % (U(loop.test), w.lock),
+                   detail_ok='with %s: while ...: wait()' % w.lock)
+        # waiters that do not consume the predicate all become runnable together: the wake-up must be a broadcast
+        consumes = any(x.func == w.func and x.attr in pred for x in lm.writes)
+        if not consumes:
+            for m in lm.meths:
+                wr = [x for x in lm.writes if x.func == m and x.attr in pred]
+                for nt in [x for x in lm.ops if x.func == m and x.lock == w.lock and x.op in ('notify', 'notify_all', 'notifyAll')]:
+                    if wr:
+                        chk.decide(nt.op != 'notify', 'broadcast-wakeup', '%s.%s@%s' % (w.lock, nt.op, m), node=nt.node, file=CT, func=m,
+                                   detail_bad='%s changes %s and wakes ONE waiter of %s, but waiters in %s() do not consume that state: with two '
+                                              'threads waiting only one returns, the other sleeps although its predicate is true' % (m, pred, w.lock, w.func),
+                                   detail_ok='notify_all')
         # somebody else changes the predicate and then notifies this condition while holding it
         ok = False
         who = []
